@@ -20,6 +20,25 @@ CHECKS = [
   "design_ref": "DESIGN.md §6 C09",
   "note": TB + " encoding/json is an oracle parameter of the model (per-element decodability is computed by the harness with the real decoder).",
   "technique": "Lean 4 theorems (induction over the batch fold, case analysis of handle) + regenerated facts + differential correspondence"},
+ {"property_id": "C12",
+  "text": "Theorems over the model of NewMethodNameFormatter/register/handle: a key of the method table always wins over an alias, "
+          "the most recent registration under a key wins, alias fallback is a single hop through the method table, anything else is "
+          "-32601 with no invocation; namespace-including dot formatters never let a request for fmt(ns,m) reach a method of another "
+          "namespace (injectivity on dot-free method names, all strings); a handler runs only if arity and every positional param "
+          "decode fit. Tie: regenerated facts (lookup order, gates before doCall, formatter shape) + exhaustive differential over the "
+          "property's small universe through the real ServeHTTP and a real client per configuration.",
+  "design_ref": "DESIGN.md §6 C12",
+  "note": TB + " Method names are assumed to start with an ASCII byte (lower-first slices one byte).",
+  "technique": "Lean 4 theorems (list/lookup induction, injectivity of the formatter) + regenerated facts + exhaustive differential correspondence"},
+ {"property_id": "C19",
+  "text": "Theorems over the model of HasPerm/PermissionedProxy/auth.Handler for all permission lists and all strings: the wrapped "
+          "method is invoked iff the required permission is in the effective set (attached, even if empty, else defaults), otherwise "
+          "permission error and no invocation; ServeHTTP passes exactly verify(token) for 'Bearer t' from header or token query, nothing "
+          "for token-less requests, 401 for wrong prefix or rejected token, header wins. Tie: exhaustive differential over the "
+          "3-permission universe and header/query forms against the real auth package.",
+  "design_ref": "DESIGN.md §6 C19",
+  "note": TB,
+  "technique": "Lean 4 theorems (decision logic stated outright) + exhaustive differential correspondence"},
 ]
 
 _PENDING = "check under construction in this round (see DESIGN.md §13 build order); not claimed until its theorem file, tie and unchanged-tree sweep exist"
